@@ -126,6 +126,7 @@ def hexVal (c : Char) : Option Nat :=
 
 /-- hex (of UTF-8 bytes) → String; payload texts are ASCII/UTF-8 -/
 def unhex (s : String) : Option String := do
+  if s == "-" then return ""
   let rec go : List Char → Array UInt8 → Option (Array UInt8)
     | [], acc => some acc
     | a :: b :: r, acc => do
@@ -137,6 +138,7 @@ def unhex (s : String) : Option String := do
 
 def hexDigit (n : Nat) : Char := if n < 10 then Char.ofNat (48 + n) else Char.ofNat (87 + n)
 def hex (s : String) : String :=
+  if s.isEmpty then "-" else
   String.ofList (s.toUTF8.toList.flatMap fun b => [hexDigit (b.toNat / 16), hexDigit (b.toNat % 16)])
 
 end T4V
